@@ -104,6 +104,7 @@ def run(ctx):
     # ---- R19.1 registration only on success
     adds = [c for c in calls(gi.node) if call_name(c) == "self._add_to_cache"]
     ok_all = bool(adds)
+    unknown_else = False
     for a in adds:
         fors = [n for n in own_walk(gi.node) if isinstance(n, ast.For) and a in [x for b in n.body for x in ast.walk(b)]]
         ok = False
@@ -137,7 +138,12 @@ def run(ctx):
                                 else_pops = True
                     if in_body and else_pops:
                         ok = True
+                    elif in_body and any(isinstance(x, ast.Attribute) and x.attr == "filepath" for b in i.orelse for x in ast.walk(b)):
+                        # the failed path is recorded in some other way this rule does not follow: no verdict on that half
+                        unknown_else = True
         ok_all = ok_all and ok
+    if not ok_all and unknown_else and adds:
+        ok_all = None
     ctx.expect(ok_all, "R19.1", "__getitem__[register on success only]",
                "_add_to_cache runs only under the success flag of its own download; failed misses leave the returned list",
                gi.loc(adds[0]) if adds else gi.loc())
